@@ -30,7 +30,10 @@ RULE = (
     "selection written by TemplateModel.save_spikes_subset_waveforms is checked against the same "
     "constraints. (big) hand-made clusters of 30 000 spikes (thorough: up to 1.5 million) of which "
     "a few dozen are eligible. Non-trivial: a spike exactly on a bound, or a stride >1 that does not divide the "
-    "number of chunks, or a cluster with more eligible spikes than requested.")
+    "number of chunks, or a cluster with more eligible spikes than requested."
+    ' Later additions: counts as NumPy integers, chunk grids of 120-30 000 chunks with the kept c'
+    'ount as uint8/int8/int16, subsets listing an id twice, unsorted time vectors, clusters of 30'
+    ' 000+ spikes with sparse eligibility, the selection exported by EphysAlfCreator.convert.')
 ASSUMPTIONS = ['np.random.choice(replace=False) returns distinct elements of its input']
 
 ALPH = [0, 1, 3, 4, 8]
